@@ -16,8 +16,8 @@
    binding (checks/c40.py: every loader-strategy / column-option assignment must produce this result and this graph;
    checks/c41.py: ORM result = this result = rows of a Core select built by the harness from Table objects).
 
-   Part 2 (INIT InitPart2 = InitHierGrid \/ InitHier; C42).  A class hierarchy (root A, subclasses B1, B2 of A, C1 below B1, C2 below B1 or B2;
-   any parent-closed subset), mapped single-table, joined-table or mixed (the mapping kind is carried for the binding only: the MEANING of a
+   Part 2 (INIT InitPart2 = InitHierGrid \/ InitHier; C42).  A class hierarchy (root A, subclasses B1, B2 of A, C1 below B1, C2 below B1 or B2,
+   D1 below C1: depth <= 3; any parent-closed subset), mapped single-table, joined-table or mixed (the mapping kind is carried for the binding only: the MEANING of a
    query does not depend on it, nor on any polymorphic loading option - which is what C42 states), each class adding one attribute; rows name their class by discriminator; a holder table H
    with H.items -> A.  HEval(q) defines: the rows of a query against class K are the rows whose class is K or below, each reported
    with its OWN class and exactly the attributes of that class and its ancestors.                                                *)
@@ -312,27 +312,29 @@ Theorems == LimitIsSlice /\ OrderOK /\ AnyIsSemiJoin /\ SetOpsOK /\ HasIsJoin /\
 \* ds = [cls, c2par, tabs, n, nh, rows]    cls: the mapped classes (parent-closed, contains "A"), c2par: the parent of C2,
 \*        tabs: the classes mapped to a table of their own (joined-table inheritance; the others live in the nearest such ancestor's
 \*        table = single-table inheritance; {} = pure single, cls \ {"A"} = pure joined, anything else = mixed) - binding only,
-\*        rows[i] = [cls, hid, v]: discriminator, holder (0 = none) and the attribute values <<a, b1, b2, c1, c2>> (0 = NULL / not applicable)
+\*        rows[i] = [cls, hid, v]: discriminator, holder (0 = none) and the attribute values <<a, b1, b2, c1, c2, d1>> (0 = NULL / not applicable)
+\*        The rows of a query against class K are K's and those of ALL its descendants - HMatch never looks at `tabs`.
 \* q  = [at, flt, fc, fv, ord, lim, off, via]
 \*        at    the class the query is written against
 \*        flt   none | a (A.a == fv) | sub (criterion on the own attribute of the strict subclass fc: fc.attr == fv)
 \*        via   direct (select the class) | jot (select H, at .. join H.items.of_type(at)) | aot (H.items.of_type(at).any(flt)) |
 \*              items (select H, collections H.items loaded along of_type(at))
-HAll == <<"A", "B1", "B2", "C1", "C2">>
-HIx(c) == CHOOSE i \in 1..5 : HAll[i] = c
-HParent(c2par, c) == CASE c = "B1" -> "A" [] c = "B2" -> "A" [] c = "C1" -> "B1" [] c = "C2" -> c2par [] OTHER -> "-"
+HAll == <<"A", "B1", "B2", "C1", "C2", "D1">>
+HN == 6
+HIx(c) == CHOOSE i \in 1..HN : HAll[i] = c
+HParent(c2par, c) == CASE c = "B1" -> "A" [] c = "B2" -> "A" [] c = "C1" -> "B1" [] c = "C2" -> c2par [] c = "D1" -> "C1" [] OTHER -> "-"
 RECURSIVE HAnc(_, _)
 HAnc(c2par, c) == IF c = "A" THEN {"A"} ELSE {c} \cup HAnc(c2par, HParent(c2par, c))
 HDescIn(cls, c2par, c) == {d \in cls : c \in HAnc(c2par, d)}
 HDesc(c) == HDescIn(ds.cls, ds.c2par, c)
 HChildren(c) == {d \in ds.cls \ {"A"} : HParent(ds.c2par, d) = c}
-HShapes == {h \in [cls : SUBSET {"A", "B1", "B2", "C1", "C2"}, c2par : {"B1", "B2"}] :
+HShapes == {h \in [cls : SUBSET {"A", "B1", "B2", "C1", "C2", "D1"}, c2par : {"B1", "B2"}] :
               /\ "A" \in h.cls /\ Cardinality(h.cls) >= 2
               /\ \A c \in h.cls \ {"A"} : HParent(h.c2par, c) \in h.cls
               /\ ("C2" \notin h.cls => h.c2par = "B1")}
-HRowSpace(h, nh) == [cls : h.cls, hid : 0..nh, v : [1..5 -> 0..MaxV]]
-HNormRow(h, r) == [r EXCEPT !.v = [j \in 1..5 |-> IF HAll[j] \in HAnc(h.c2par, r.cls) THEN r.v[j] ELSE 0]]
-HQSpace == [at : {"A", "B1", "B2", "C1", "C2"}, flt : {"none", "a", "sub"}, fc : {"B1", "B2", "C1", "C2"}, fv : Vals, ord : {"id", "idd"},
+HRowSpace(h, nh) == [cls : h.cls, hid : 0..nh, v : [1..HN -> 0..MaxV]]
+HNormRow(h, r) == [r EXCEPT !.v = [j \in 1..HN |-> IF HAll[j] \in HAnc(h.c2par, r.cls) THEN r.v[j] ELSE 0]]
+HQSpace == [at : {"A", "B1", "B2", "C1", "C2", "D1"}, flt : {"none", "a", "sub"}, fc : {"B1", "B2", "C1", "C2", "D1"}, fv : Vals, ord : {"id", "idd"},
             lim : {-1, 0, 1, 2}, off : {-1, 1, 2}, via : {"direct", "jot", "aot", "items"}]
 HNorm(h, r) ==
   LET at == IF r.at \in h.cls THEN r.at ELSE "A"
@@ -360,17 +362,22 @@ HSorted(qq) == LET I == HItems(qq)
 HEval(qq) == Slice(HSorted(qq), qq.lim, qq.off)
 \* what a loaded row IS: its own class, exactly the attributes of that class and its ancestors (-1: the attribute does not exist on it)
 HObj(i) == [id |-> i, cls |-> ds.rows[i].cls, hid |-> ds.rows[i].hid,
-            vals |-> [j \in 1..5 |-> IF HAll[j] \in HAnc(ds.c2par, ds.rows[i].cls) THEN ds.rows[i].v[j] ELSE -1]]
+            vals |-> [j \in 1..HN |-> IF HAll[j] \in HAnc(ds.c2par, ds.rows[i].cls) THEN ds.rows[i].v[j] ELSE -1]]
 HCase == [ds |-> ds, q |-> q, rows |-> HEval(q), count |-> Len(HEval(q)), objs |-> [i \in 1..ds.n |-> HObj(i)],
           hitems |-> [h \in 1..ds.nh |-> Dsc({i \in HIds : ds.rows[i].hid = h})]]           \* H.items is ordered by A.id DESCENDING
-TabChoices(h) == IF Mixed THEN SUBSET (h.cls \ {"A"}) ELSE {{}, h.cls \ {"A"}}
+\* mapping kinds (binding only).  Always: pure single-table, pure joined-table, and the three layered mixtures - joined-table classes
+\* BELOW single-table ones (depth >= 2 joined under a single-table, non-base class), single-table below joined (only depth 1 joined), and a
+\* joined-table class in the middle (depth 2 joined: single above it, single below it).  Mixed = TRUE: every subset.
+HDepth(c) == CASE c = "A" -> 0 [] c \in {"B1", "B2"} -> 1 [] c \in {"C1", "C2"} -> 2 [] OTHER -> 3
+TabChoices(h) == IF Mixed THEN SUBSET (h.cls \ {"A"})
+                 ELSE {{}, h.cls \ {"A"}, {c \in h.cls : HDepth(c) >= 2}, {c \in h.cls : HDepth(c) = 1}, {c \in h.cls : HDepth(c) = 2}}
 RandomHDs == \E h \in {RandomElement(HShapes)} : \E nn \in {Pick(Sizes(NH))} : \E nh \in {RandomElement(0..2)} :
              \E raw \in {RandomElement([1..nn -> HRowSpace(h, nh)])} :
                ds = [cls |-> h.cls, c2par |-> h.c2par, tabs |-> RandomElement(TabChoices(h)), n |-> nn, nh |-> nh,
                      rows |-> [i \in 1..nn |-> HNormRow(h, raw[i])]]
 HFinish == /\ out = HCase /\ PrintT(ToJson(out))
-RandomHQ(kk) == [at |-> RandomElement({"A", "B1", "B2", "C1", "C2"}), flt |-> RandomElement({"none", "a", "sub"}),
-                 fc |-> RandomElement({"B1", "B2", "C1", "C2"}), fv |-> RandomElement(Vals), ord |-> RandomElement({"id", "idd"}),
+RandomHQ(kk) == [at |-> RandomElement({"A", "B1", "B2", "C1", "C2", "D1"}), flt |-> RandomElement({"none", "a", "sub"}),
+                 fc |-> RandomElement({"B1", "B2", "C1", "C2", "D1"}), fv |-> RandomElement(Vals), ord |-> RandomElement({"id", "idd"}),
                  lim |-> Pick(LimW), off |-> Pick(OffW), via |-> RandomElement({"direct", "jot", "aot", "items"})]
 InitHier == /\ k \in 1..NQ /\ RandomHDs /\ q = HNorm(ds, RandomHQ(k)) /\ HFinish
 \* systematic: every shape x {single, joined [, mixed]} x every class queried x every via x every filter, unsliced, with random rows
@@ -401,8 +408,8 @@ HUnionOfSubclasses ==
 HMostSpecific ==
   \A i \in HIds : LET o == out.objs[i] IN
     /\ o.cls = ds.rows[i].cls
-    /\ \A j \in 1..5 : (o.vals[j] # -1) <=> (HAll[j] \in HAnc(ds.c2par, o.cls))
-    /\ \A j \in 1..5 : o.vals[j] # -1 => o.vals[j] = ds.rows[i].v[j]
+    /\ \A j \in 1..HN : (o.vals[j] # -1) <=> (HAll[j] \in HAnc(ds.c2par, o.cls))
+    /\ \A j \in 1..HN : o.vals[j] # -1 => o.vals[j] = ds.rows[i].v[j]
     /\ (q.via \in {"direct", "jot"} /\ (\E t \in HSet(q) : t[Len(t)] = i) => o.cls \in HDesc(q.at))
 HLimitIsSlice == LET full == HEval(HNoLim(q)) a == IF q.off = -1 THEN 0 ELSE q.off IN
                  /\ out.rows = SubSeq(full, a + 1, IF q.lim = -1 THEN Len(full) ELSE Min2(Len(full), a + q.lim))
